@@ -117,14 +117,18 @@ Write(key) ==
      /\ out' = {[k |-> "resume", b |-> b] : b \in rb} \cup {[k |-> "presume", b |-> w.b] : w \in rp}
   /\ res' = "done"
 
-(* time passes; each timer fires at most once per advance and is re-armed relative to the new now *)
+(* time passes.  Time never jumps over a deadline (dt <= time left on either timer): a timer whose deadline is reached fires in that
+   step and is re-armed for a full period.  (Under real time the 1 s and 5 s timers fire every period; a model in which one step may
+   skip several deadlines would hide changes that only matter when the timer ticks regularly.) *)
+NextDeadline == Min(bleft, mleft)
 Advance(dt) ==
-  LET bfire  == dt >= bleft
-      mfire  == dt >= mleft
+  LET bfire  == dt = bleft
+      mfire  == dt = mleft
       bage2  == [d \in Blocks  |-> Min(bage[d] + dt, BRetryDelay + 1)]
       mage2  == [d \in Batches |-> Min(mage[d] + dt, MRetryDelay + 1)]
       bretry == IF "no_retry" \in Weak THEN {} ELSE {d \in breq : bage2[d] > BRetryDelay}
       mretry == IF "no_retry" \in Weak THEN {} ELSE {d \in mpend : mage2[d] > MRetryDelay} IN
+  /\ dt > 0 /\ dt <= NextDeadline
   /\ UNCHANGED <<stored, bpend, breq, mpend, mrnd, mround, ppend>>
   /\ bage' = bage2 /\ mage' = mage2
   /\ bleft' = IF bfire THEN BlockTimer ELSE bleft - dt
@@ -149,7 +153,7 @@ NextCore ==      \* without the (stateless) helpers
   \/ \E b \in Blocks : Ask(b) \/ Verify(b)
   \/ \E r \in {Rnd[b] : b \in Blocks} : Cleanup(r)
   \/ \E key \in Keys : Write(key)
-  \/ \E dt \in Steps : Advance(dt)
+  \/ \E dt \in Steps \cup {NextDeadline} : Advance(dt)
 Next ==
   \/ NextCore
   \/ \E d \in Keys, p \in Peers : BlockRequest(d, p)
